@@ -140,7 +140,8 @@ static Level fam_streams(int n, bool single_only) {
 }
 
 // ---- C10 ---------------------------------------------------------------------------------------------------------------
-static const char *IFLIB = "DEFINE IF <V> THEN <P> ELSE <P> END AS\n  #0 := 0;\n  #1 := 1;\n  #2 := $0;\n  LOOP #2 DO\n    #0 := 1;\n    #1 := 0\n  END;\n  LOOP #0 DO $1 END;\n  LOOP #1 DO $2 END\nENDDEF\nDEFINE SAVE <ID> <P> RESTORE AS\n  #0 := $0;\n  $1;\n  $0 := #0\nENDDEF\n";
+static std::string g_iflib_prio;  // "" or "PRIO n " inserted into both library definitions
+static const char *IFLIB0 = "DEFINE IF <V> THEN <P> ELSE <P> END AS\n  #0 := 0;\n  #1 := 1;\n  #2 := $0;\n  LOOP #2 DO\n    #0 := 1;\n    #1 := 0\n  END;\n  LOOP #0 DO $1 END;\n  LOOP #1 DO $2 END\nENDDEF\nDEFINE SAVE <ID> <P> RESTORE AS\n  #0 := $0;\n  $1;\n  $0 := #0\nENDDEF\n";
 static void oracle_C10(const Case &c, vf::Stats &st) {
   st.add("cases"); std::string cj = c.json(), key = c.key();
   ref::ScanOut so = ref::scan(c.files, c.main); if (!so.errs.empty()) { st.add("skipped_scan_errors"); return; }
@@ -182,8 +183,10 @@ static void gen_uses(int depth, std::vector<std::string> &out) {
 static Level fam_nestings(int depth, int seqlen) {
   return {"temporaries: nestings<=" + std::to_string(depth) + " x sequences<=" + std::to_string(seqlen), [=](const CB &cb) {
             std::vector<std::string> uses; gen_uses(depth, uses);
-            for (int init = 0; init < 2; init++) {
-              std::string pre = std::string(IFLIB) + "x0 := " + std::to_string(init) + ";\n";
+            for (std::string prio : {"", "PRIO 1000000 ", "PRIO 2000000 "}) for (int init = 0; init < 2; init++) {
+              if (!prio.empty() && init == 0) continue;
+              std::string lib = IFLIB0; size_t q = 0; while ((q = lib.find("DEFINE ", q)) != std::string::npos) { lib.insert(q + 7, prio); q += 7; }
+              std::string pre = lib + "x0 := " + std::to_string(init) + ";\n";
               for (auto &a : uses) { cb(mk(pre, a));
                 if (seqlen >= 2) for (auto &b : uses) { if (a.size() + b.size() > 160) continue; cb(mk(pre, a + ";\n" + b));
                   if (seqlen >= 3 && a.size() + b.size() < 70) for (auto &c3 : uses) if (c3.size() < 50) cb(mk(pre, a + ";\n" + b + ";\n" + c3)); } }
@@ -219,6 +222,22 @@ static void oracle_C11(const Case &c, vf::Stats &st) {
   st.outcomes.insert(vf::mix(vf::fnv(showc(got)) + err));
   if (ok_exhausted) st.sample("{\"source\":" + vf::jstr(c.files.at(c.main)) + ",\"budget\":" + std::to_string(c.budget) + ",\"result\":" + vf::jstr(showc(got)) + "}", 2);
 }
+// geometric and linear growth: a macro that re-creates its own match and multiplies / extends the stream. Rewriting is
+// possible after every step by construction, so the error must be reported and the size must follow the recurrence.
+static Level fam_growth(bool thorough) {
+  return {"growing self-reproducing macros (geometric: budgets 4..17, linear: budget 1024)", [=](const CB &cb) {
+            for (int b : {4, 8, 12, 14, 15, 16, 17}) { Case c; c.main = "growth"; c.budget = b; c.files["growth"] = "DEFINE foo <V> AS foo RUN f WITH $0 , $0 END ENDDEF\nfoo a"; cb(c); }
+            if (thorough) { std::string body; for (int i = 0; i < 24; i++) body += "; a" + std::to_string(i) + " := 0 "; Case c; c.main = "growth"; c.budget = 1024; c.files["growth"] = "DEFINE seed := 0 AS seed := 0 " + body + "ENDDEF\nseed := 0"; cb(c); }
+          }};
+}
+static void oracle_C11_growth(const Case &c, vf::Stats &st) {
+  st.add("cases"); Run r(c, c.budget); size_t got = r.mar.transformed_sequence.size(); bool err = r.has(Theo::ParseError::MACRO_APPLY_REACHED_MAX_PASSES);
+  bool geometric = c.files.at("growth").find("$0 , $0") != std::string::npos;
+  size_t want = geometric ? (size_t)(6ULL * (1ULL << c.budget) - 3) : (size_t)(4 + 96ULL * c.budget);  // incl. the EOF token
+  st.nontrivial.insert(c.hash()); st.add("budget_exhausted"); st.max("tokens_after_expansion", (long long)got); st.outcomes.insert(vf::mix(got * 2 + err));
+  if (got != want) { st.violation(c.key(), "after " + std::to_string(c.budget) + " rewriting steps the stream has " + std::to_string(got) + " tokens, " + std::to_string(want) + " expected (each step " + (geometric ? "doubles the slot" : "adds 96 tokens") + ")", c.json()); return; }
+  if (!err) st.violation(c.key(), "rewriting was still possible after " + std::to_string(c.budget) + " steps (" + std::to_string(got) + " tokens) but no too-many-substitutions error was reported", c.json());
+}
 static Level fam_budget(int maxstream, int maxbudget) {
   return {"all macro sets<=2 defs (pattern 1-2, body 0-2 tokens over {a,b}) x streams<=" + std::to_string(maxstream) + " x budgets 1.." + std::to_string(maxbudget), [=](const CB &cb) {
             std::vector<std::string> seqs[3]; seqs[0] = {""}; for (auto x : {"a", "b"}) { seqs[1].push_back(x); for (auto y : {"a", "b"}) seqs[2].push_back(std::string(x) + " " + y); }
@@ -251,23 +270,29 @@ static std::vector<std::string> pattern_symbols() { return {"<ID>", "<INT>", "<V
 static std::string instance_of(const std::string &sym) { if (sym == "<ID>") return "x"; if (sym == "<INT>") return "7"; if (sym == "<V>") return "y"; if (sym == "<A>") return "y , 3"; if (sym == "<P>") return "STOP ; GOTO l"; return sym; }
 static void oracle_C12(const Case &c, vf::Stats &st) {
   st.add("cases"); std::string cj = c.json(), key = c.key();
-  ref::ScanOut so = ref::scan(c.files, c.main); ref::Extracted ex = ref::extract(so.toks); if (!so.errs.empty() || !ex.wellformed || ex.defs.size() != 2) { st.add("skipped_not_wellformed"); return; }
-  reflr::LRResult lr = pattern_lr(ex.defs[0].pattern);
+  ref::ScanOut so = ref::scan(c.files, c.main); ref::Extracted ex = ref::extract(so.toks); if (!so.errs.empty() || !ex.wellformed || ex.defs.size() < 2 || ex.defs.size() > 3) { st.add("skipped_not_wellformed"); return; }
+  size_t lead = ex.defs.size() - 2;  // 1 when the tested definition follows another (rejected) one
+  reflr::LRResult lr = pattern_lr(ex.defs[lead].pattern);
   if (lr.states < 0) { st.add("skipped_reference_state_cap"); return; }
   bool ref_reject = lr.conflicts > 0;
   Run r(c, c.budget);
   std::vector<Theo::ParseError> nonlr; for (auto &e : r.mar.errors) if (e.t == Theo::ParseError::MACRO_COMPILE_NON_LR) nonlr.push_back(e);
   st.nontrivial.insert(c.hash()); st.add(ref_reject ? "patterns_not_prefix_deterministic" : "patterns_prefix_deterministic");
+  if (lead) {
+    // the leading macro 'lead <P>' is always rejected; the tested one must still be judged on its own
+    if (nonlr.empty()) { st.violation(key, "the leading macro 'lead <P>' (pattern ends in a statement slot) is not reported", cj); return; }
+    nonlr.erase(nonlr.begin()); st.add("tested_after_a_rejected_macro");
+  }
   if (ref_reject != !nonlr.empty()) { st.violation(key, std::string("pattern is ") + (ref_reject ? "not prefix-deterministic (" + (lr.conflict_desc.empty() ? std::string() : lr.conflict_desc[0]) + ")" : "prefix-deterministic") + " but the macro is " + (nonlr.empty() ? "accepted" : "reported as non-linear"), cj); return; }
   if (nonlr.size() > 1) { st.violation(key, "several non-linear errors for one rejected pattern (the companion macro is deterministic)", cj); return; }
-  if (!nonlr.empty()) { const ref::Tok &first = ex.defs[0].pattern[0]; if (nonlr[0].file != first.file || nonlr[0].line != first.line) { st.violation(key, "non-linear error located at " + nonlr[0].file + ":" + std::to_string(nonlr[0].line) + ", the pattern starts at " + first.file + ":" + std::to_string(first.line), cj); return; } }
-  std::vector<bool> usable = {!ref_reject, true};
+  if (!nonlr.empty()) { const ref::Tok &first = ex.defs[lead].pattern[0]; if (nonlr[0].file != first.file || nonlr[0].line != first.line) { st.violation(key, "non-linear error located at " + nonlr[0].file + ":" + std::to_string(nonlr[0].line) + ", the pattern starts at " + first.file + ":" + std::to_string(first.line), cj); return; } }
+  std::vector<bool> usable = {!ref_reject, true}; if (lead) usable.insert(usable.begin(), false);
   RefOut ro = ref_expand_all(ex.rest, ex.defs, usable, c.budget);
   if (ro.ambiguous || ro.capped || ro.some_exhausted) { st.add("application_not_compared(ambiguous or diverging)"); st.outcomes.insert(ref_reject); return; }
   auto got = ref::canon_stream(toks_of(r.mar.transformed_sequence)); bool ok = false; for (auto &f : ro.finals) if (ref::canon_stream(f) == got) ok = true;
   if (!ok) { st.violation(key, std::string(ref_reject ? "rejected" : "accepted") + " pattern: stream becomes '" + showc(got) + "', reference '" + show(ro.finals[0]) + "'", cj); return; }
   st.add("applications_compared"); st.outcomes.insert(vf::mix(vf::fnv(showc(got)) + ref_reject));
-  if (ex.defs[0].pattern.size() >= 3) st.sample("{\"pattern\":" + vf::jstr(show(ex.defs[0].pattern)) + ",\"rejected\":" + (ref_reject ? "true" : "false") + "}", 4);
+  if (ex.defs[lead].pattern.size() >= 3) st.sample("{\"pattern\":" + vf::jstr(show(ex.defs[lead].pattern)) + ",\"rejected\":" + (ref_reject ? "true" : "false") + "}", 4);
 }
 static Level fam_patterns(int k, bool lists_only = false) {
   return {"all patterns<=" + std::to_string(k) + (lists_only ? " over 7 list-related symbols" : " over 17 symbols"), [=](const CB &cb) {
@@ -276,6 +301,7 @@ static Level fam_patterns(int k, bool lists_only = false) {
               for (;;) { std::string pat, inst; for (int i = 0; i < len; i++) { pat += S[ix[i]] + " "; inst += instance_of(S[ix[i]]) + " "; }
                 std::string defs = "\nDEFINE " + pat + "AS zap ENDDEF\nDEFINE bar AS baz ENDDEF";
                 cb(mk(defs, "bar " + inst + "bar", 50)); cb(mk(defs, inst + "; a := 1 ; " + inst + "bar ) 1 foo", 50));
+                if (len <= 3) cb(mk("\nDEFINE lead <P> AS zip ENDDEF" + defs, "bar " + inst + "bar", 50));  // directly after another rejected macro
                 int i = 0; while (i < len && ++ix[i] == V) ix[i++] = 0; if (i == len) break; } } }};
 }
 
@@ -285,8 +311,8 @@ int main(int argc, char **argv) {
   if (args.prop == "C09") { o = oracle_C09; L = {fam_streams(3, false), fam_streams(4, false)}; if (T) { L.push_back(fam_streams(5, false)); L.push_back(fam_streams(6, true)); } }
   else if (args.prop == "C10") { o = oracle_C10; L = {fam_nestings(1, 3), fam_nestings(2, 2)}; if (T) { L.push_back(fam_nestings(2, 3)); L.push_back(fam_nestings(3, 2)); } }
   else if (args.prop == "C11") {
-    o = [](const Case &c, vf::Stats &st) { if (c.budget == 1024) oracle_C11_compile(c, st); else oracle_C11(c, st); };
-    L = {fam_compile_divergent(), fam_budget(2, 4), fam_budget(3, 6)}; if (T) L.push_back(fam_budget(4, 8));
+    o = [](const Case &c, vf::Stats &st) { if (c.main == "growth") oracle_C11_growth(c, st); else if (c.budget == 1024) oracle_C11_compile(c, st); else oracle_C11(c, st); };
+    L = {fam_compile_divergent(), fam_growth(T), fam_budget(2, 4), fam_budget(3, 6)}; if (T) L.push_back(fam_budget(4, 8));
   }
   else if (args.prop == "C12") { o = oracle_C12; L = {fam_patterns(2), fam_patterns(3), fam_patterns(5, true)}; if (T) { L.push_back(fam_patterns(4)); L.push_back(fam_patterns(6, true)); } }
   else { fprintf(stderr, "ERROR: unknown property %s\n", args.prop.c_str()); return 2; }
